@@ -148,7 +148,7 @@ fn fuzz_scenario(rng: &mut Rng) -> Scenario {
                             1 => ElOp::SetTagName(fuzz_string(rng)),
                             2 => ElOp::RemoveAttr(fuzz_string(rng)),
                             3 => ElOp::GetAttr(fuzz_string(rng)),
-                            _ => ElOp::Before(Content { s: fuzz_string(rng), html: rng.bool(), stream: rng.below(4) as u8 }),
+                            _ => ElOp::Before(Content { s: fuzz_string(rng), html: rng.bool(), stream: rng.below(4) as u8, fail_stream: false }),
                         };
                     }
                 }
@@ -170,7 +170,7 @@ fn fuzz_scenario(rng: &mut Rng) -> Scenario {
         sc.joins = wl::random_joins(rng, &sc.handlers);
     }
     for _ in 0..rng.below(3) {
-        sc.bailout.push(vec![Content { s: fuzz_string(rng), html: rng.bool(), stream: 0 }]);
+        sc.bailout.push(vec![Content { s: fuzz_string(rng), html: rng.bool(), stream: 0, fail_stream: false }]);
     }
     let kind = rng.pick(wl::SCHED_KINDS);
     sc.cuts = wl::schedule(rng, &sc.doc, kind);
@@ -246,13 +246,16 @@ pub const BIG_KINDS: &[&str] = &[
 ];
 
 fn thread_cpu_seconds() -> f64 {
-    // CPU time of the calling thread, nanosecond resolution
-    let mut ts = libc::timespec { tv_sec: 0, tv_nsec: 0 };
+    // *User-mode* CPU time of the calling thread. Kernel time is excluded on purpose: above the
+    // allocator's mmap threshold every run gets fresh pages and pays one page fault per 4 KiB,
+    // below it freed memory is recycled without faults, which made cpu(8n)/cpu(n) jump by two
+    // orders of magnitude across the threshold although the work per byte is constant.
     // SAFETY: plain syscall writing into a local struct
     unsafe {
-        libc::clock_gettime(libc::CLOCK_THREAD_CPUTIME_ID, &mut ts);
+        let mut ru: libc::rusage = std::mem::zeroed();
+        libc::getrusage(libc::RUSAGE_THREAD, &mut ru);
+        ru.ru_utime.tv_sec as f64 + ru.ru_utime.tv_usec as f64 / 1e6
     }
-    ts.tv_sec as f64 + ts.tv_nsec as f64 / 1e9
 }
 
 /// Run a closure on a thread with an 8 MiB stack (what a main thread typically has).
@@ -419,6 +422,16 @@ impl Property for C15 {
                 Ok(Ok(()))
             }
             "linear" => {
+                // Keep freed memory inside the process: in this VM the first touch of a fresh page
+                // costs ~16 us (a plain Vec::push loop runs at 190 ns/push on fresh memory and at
+                // 2.4 ns/push on recycled memory), so allocations above glibc's mmap threshold —
+                // fresh pages on every run — made cpu(8n)/cpu(n) jump by 100x across the threshold.
+                // With mmap disabled for malloc and trimming off, the best-of-3 runs reuse warm heap.
+                // SAFETY: mallopt only changes allocator tuning of this (child) process
+                unsafe {
+                    libc::mallopt(libc::M_MMAP_MAX, 0);
+                    libc::mallopt(libc::M_TRIM_THRESHOLD, i32::MAX);
+                }
                 let measure = |n: usize| -> Result<f64, String> {
                     let sc = build_big(case, &kind, n);
                     let mut best = f64::MAX;
